@@ -402,6 +402,42 @@ func genC07(c *Ctx) {
 			}
 		}
 	}
+	// Very long lines (beyond 64 KiB and 128 KiB): faults around every multiple of 4096, around 64 KiB and 128 KiB,
+	// in the last bytes of the long line and at a sparse grid in between.
+	for _, f := range formats {
+		for _, data := range c.veryLongLineInputs(f.name) {
+			clean, _ := f.decode(bytes.NewReader(data), 0, len(data)+16)
+			bad, badK, tried := "", 0, 0
+			for k := 0; k <= len(data) && bad == ""; k++ {
+				near := k%4096 == 0 || k%4096 == 1 || k%4096 == 4095 || len(data)-k < 60 || k%1009 == 0 || (k > 65530 && k < 65545) || (k > 131066 && k < 131080)
+				if !near {
+					continue
+				}
+				for _, forever := range []bool{false, true} {
+					tried++
+					got := itemsStr(f.decode(&faultReader{data: data[:k], forever: forever}, 0, len(data)+16))
+					items := strings.Split(got, "|")
+					if strings.Contains(got, ":") {
+						bad, badK = trunc(got, 80), k
+					} else if got == "." || items[len(items)-1] != "E" {
+						bad, badK = "iteration ends without reporting the read error", k
+					} else {
+						for j, r := range items[:len(items)-1] {
+							if j >= len(clean) || clean[j] != r {
+								bad, badK = fmt.Sprintf("item %d is not the fault-free decode's item (a record or an error built from a truncated line?)", j), k
+								break
+							}
+						}
+					}
+				}
+			}
+			oracle := ""
+			if bad != "" {
+				oracle = fmt.Sprintf("%s, a line of %d bytes, read fault after %d bytes: %s", f.name, len(data)-20, badK, bad)
+			}
+			c.add(Case{Kind: f.name + "-read-very-long", Nontrivial: true, Oracle: oracle, Note: fmt.Sprintf("%s: %d read faults inside and around a line of about %d bytes", f.name, tried, len(data))})
+		}
+	}
 	corruptGzipFiles(c)
 	bufioDestinations(c)
 	ws := recordWriters(c)
@@ -744,10 +780,15 @@ func genC18(c *Ctx) {
 	longStops(c)
 	canonLongStops(c)
 	for _, f := range formats {
-		big := c.boundaryInputs(f.name)
-		if len(big) > 6 {
-			big = big[:6]
+		all := c.boundaryInputs(f.name)
+		var big [][]byte
+		for k, d := range all { // a spread on both sides of 4096 and 8192, not the first few
+			if k%3 == 0 {
+				big = append(big, d)
+			}
 		}
+		big = append(big, c.veryLongLineInputs(f.name)...)
+		big = append(big, c.longLineInputs(f.name)[3:6]...)
 		// several records spread over more than one buffer refill
 		var multi []byte
 		for len(multi) < 10000 {
